@@ -75,6 +75,9 @@ func tagFrom(f *From, m map[string]bool) {
 		tagFrom(f.L, m)
 		tagFrom(f.R, m)
 		tagExpr(f.On, m)
+	case "cte":
+		m["cte"] = true
+		tagQuery(f.Q, m, false)
 	case "derived":
 		m["derived"] = true
 		tagQuery(f.Q, m, false)
@@ -97,6 +100,8 @@ func tagExpr(e *Expr, m map[string]bool) {
 		m["op:"+e.Op] = true
 	case "in":
 		m["inlist"] = true
+	case "raw":
+		m["raw"] = true
 	case "fn":
 		m["fn:"+e.F] = true
 	case "agg":
